@@ -17,7 +17,7 @@ def sign(x):
     return (x > 0) - (x < 0)
 
 
-def check_call(sizer, dh, equity, lev, rate, ws, ps):
+def check_call(sizer, dh, equity, lev, rate, ws, ps, shared=None):
     n = len(ws)
     assets = ASSETS[:n] if n <= len(ASSETS) else ['EQ:W%02d' % i for i in range(n)]
     dh.ask = {a: float(fw(p)) for a, p in zip(assets, ps)}
@@ -25,7 +25,13 @@ def check_call(sizer, dh, equity, lev, rate, ws, ps):
     weights = {a: (int(fw(w)) if fw(w).denominator == 1 else float(fw(w))) for a, w in zip(assets, ws)}
     case = {'kind': 'size', 'equity': str(equity), 'leverage': lev, 'rate': rate, 'weights': list(ws), 'asks': list(ps)}
     try:
-        got = sizer(DT, dict(weights))
+        if shared is not None:
+            # the caller keeps ONE weights dictionary and edits it in place between calls
+            shared.clear()
+            shared.update(weights)
+            got = sizer(DT, shared)
+        else:
+            got = sizer(DT, dict(weights))
     except Exception as e:  # noqa
         return [{'clause': 'C11.unexpected_error', 'detail': {'error': repr(e)}, 'case': case}], 0, None
     if set(got.keys()) != set(assets):
@@ -90,13 +96,14 @@ def group(item):
     half = fw(equity) / 2
     plan += [('half', ps, ws) for ws in itertools.product(WEIGHTS[1:6:2], repeat=len(ps))]
     withdrawn = False
+    live = {}
     for eq, prices, ws in plan:
         if eq == 'half':
             if not withdrawn:
                 broker.withdraw_funds_from_portfolio('p', float(half))
                 withdrawn = True
             eq = half
-        f, a, oc = check_call(sizer, dh, eq, lev, rate, ws, prices)
+        f, a, oc = check_call(sizer, dh, eq, lev, rate, ws, prices, shared=live if prices is ps2 else None)
         n += 1
         amb += a
         viols += f
